@@ -170,7 +170,7 @@ fn run(def: &'static PropDef, tier: Tier) -> i32 {
         return 0;
     }
     violations.sort_by_key(|v| v.1.case.to_string().len());
-    let dir = format!("/verif/replays/{}", def.id);
+    let dir = format!("{}/replays/{}", infra::root(), def.id);
     let _ = std::fs::create_dir_all(&dir);
     for (n, f) in violations.iter().take(8) {
         let body = json!({"property": def.id, "tier": tier.as_str(), "case": f.case, "symptom": f.symptom, "detail": f.detail, "tags": f.tags, "cases_with_same_signature": n});
